@@ -13,9 +13,10 @@
 //    property C15 and is kept out of this check. Where the precondition does not hold the operation is skipped
 //    (label "skipped:sort-prefix"). The model orders keys by comparing code units as `char` (the library's Char_T),
 //    i.e. exactly the comparison the key type declares; signedness of `char` is not judged here.
-//  * Resize(n) with 0 < n < Size() (a truncating shrink, HArrayTest.hpp TestHArray4 "Resize(1)") is executed only while
-//    the model knows the table is tombstone-free (no removal since the last compaction); then Size() == live count and
-//    "the first n entries survive" is well defined. Otherwise skipped (label "skipped:resize-shrink").
+//  * Resize(n) with 0 < n < live count (a truncating shrink, HArrayTest.hpp TestHArray4 "Resize(1)") is executed only
+//    while the model knows the table is tombstone-free (no removal since the last compaction) and Size() == live count;
+//    then "the first n entries survive" is well defined. Otherwise skipped (label "skipped:resize-shrink").
+//    Resize(n) with n >= live count is always executed and must not lose anything (there is room for every live entry).
 //  * A table is never merged into itself and never move-assigned to itself.
 //  * Rename onto an existing key (including from == to): HashTable.hpp documents "renames a key to a nonexisting one
 //    ... and returns true if successful"; the code returns false and changes nothing, and that is what the model does.
@@ -47,7 +48,8 @@ struct KeyPool {
     std::vector<std::string> everything;
 
     KeyPool() {
-        small = {"a", "b", "c", "d", "ab", "key1", "key2", "k-10", "", "x", "abc", "2017"};
+        small = {"a", "b", "c", "d", "ab", "key1", "key2", "k-10", "", "x", "abc", "2017", "ABCDEF0123456789ABCDEF0123456789",
+                 "ABCDEF0123456789ABCDEF0123456780"};
         nul   = {std::string(), std::string(1, '\0'), std::string(2, '\0'), std::string("a\0", 2), std::string("a\0b", 3), "a",
                  std::string("\0a", 2), std::string("a\0c", 3), std::string("b\0", 2), "b"};
         static const char sym[] = "ABCDEFGHIJKLMNOPQRSTUVWXYZabcdefghijklmnopqrstuvwxyz0123456789-_";
@@ -151,7 +153,8 @@ Program decode(const Case &c) {
     jm::Entropy    e(c.bytes);
     Program        p;
     p.theme         = int(e.below(8));
-    unsigned nkeys  = 2 + e.below(11);
+    unsigned nk     = e.byte();
+    unsigned nkeys  = nk >= 236 ? 12 + (nk - 236) * 3 : 2 + nk % 11; // usually 2..12 keys (duplicates), sometimes up to 69
     uint64_t seed   = e.byte();
     seed            = (seed << 8) | e.byte();
     Prng     rng{seed * 0x100000001B3ULL + uint64_t(p.theme)};
@@ -222,7 +225,8 @@ Program decode(const Case &c) {
         o.k1        = uint8_t(e.byte() % p.keys.size());
         unsigned x  = e.byte();
         o.k2        = uint8_t(x % p.keys.size());
-        o.n         = x >= 250 ? 200 + x : x % 40;
+        static const uint16_t big_n[8] = {63, 64, 65, 127, 128, 129, 256, 300};
+        o.n                            = x >= 224 ? big_n[x & 7u] : x % 40; // mostly small, sometimes around the larger capacities
         o.seed      = uint32_t(p.ops.size() + 1) * 256u + (x ^ 0x55u); // distinct per step: "last value stored" is decidable
         if (o.kind == MERGE && o.a == o.b) {
             o.b = uint8_t((o.a + 1) % 3);
@@ -234,29 +238,109 @@ Program decode(const Case &c) {
 
 std::string c_prefix(const std::string &k) { return std::string(k.c_str()); }
 
-std::string describe(const Program &p, const Op &o, int vtype) {
-    char        b[160];
-    std::string k1 = pbt::enc_bytes(p.keys[o.k1]), k2 = pbt::enc_bytes(p.keys[o.k2]);
-    switch (o.kind) {
-        case INSERT: snprintf(b, sizeof b, "T%u.Insert#%u('%s',v%u)", o.a, o.variant % (vtype == 3 ? 3 : 5), k1.c_str(), o.seed); break;
-        case GET: snprintf(b, sizeof b, "T%u.Get#%u('%s')%s%u", o.a, o.variant % 4, k1.c_str(), (o.variant & 4) ? "=v" : " read ", o.seed); break;
-        case REMOVE: snprintf(b, sizeof b, "T%u.Remove#%u('%s')", o.a, o.variant % 3, k1.c_str()); break;
-        case REMOVE_INDEX: snprintf(b, sizeof b, "T%u.RemoveIndex(%u mod Size+1)", o.a, o.n); break;
-        case RENAME: snprintf(b, sizeof b, "T%u.Rename#%u('%s'->'%s')", o.a, o.variant % 2, k1.c_str(), k2.c_str()); break;
-        case MERGE: snprintf(b, sizeof b, "T%u+=%sT%u", o.a, (o.variant & 1) ? "move " : "", o.b); break;
-        case RESERVE: snprintf(b, sizeof b, "T%u.Reserve(%u)", o.a, o.n); break;
-        case RESIZE: snprintf(b, sizeof b, "T%u.Resize(%u)", o.a, o.n); break;
-        case EXPECT: snprintf(b, sizeof b, "T%u.Expect(%u)", o.a, o.n); break;
-        case COMPRESS: snprintf(b, sizeof b, "T%u.Compress()", o.a); break;
-        case CLEAR: snprintf(b, sizeof b, "T%u.Clear()", o.a); break;
-        case RESET: snprintf(b, sizeof b, "T%u.Reset()", o.a); break;
-        case SORT: snprintf(b, sizeof b, "T%u.Sort(%s)", o.a, (o.variant & 1) ? "asc" : "desc"); break;
-        default: {
-            static const char *const how[4] = {"copy-assign", "move-assign", "copy-construct", "move-construct"};
-            snprintf(b, sizeof b, "T%u=%s(T%u)", o.a, how[(o.variant % 4 == 1 && o.a == o.b) ? 0 : o.variant % 4], o.b);
+// Rendering is on the per-case path (the frame stores the text of every case before running it): plain appends only.
+void put_num(std::string &o, unsigned v) {
+    char b[12];
+    int  n = 0;
+    do {
+        b[n++] = char('0' + v % 10);
+        v /= 10;
+    } while (v != 0);
+    while (n > 0) {
+        o.push_back(b[--n]);
+    }
+}
+void put_key(std::string &o, const std::string &k) { // same spelling as pbt::enc_bytes
+    static const char hx[] = "0123456789ABCDEF";
+    o.push_back('\'');
+    for (unsigned char c : k) {
+        if (c >= 0x21 && c < 0x7F && c != '%') {
+            o.push_back(char(c));
+        } else {
+            o.push_back('%');
+            o.push_back(hx[c >> 4]);
+            o.push_back(hx[c & 15]);
         }
     }
-    return b;
+    o.push_back('\'');
+}
+void put_table(std::string &o, unsigned t) {
+    o.push_back('T');
+    o.push_back(char('0' + t));
+}
+
+void describe_to(std::string &out, const Program &p, const Op &o, int vtype) {
+    put_table(out, o.a);
+    auto call = [&](const char *name, int variant) {
+        out.push_back('.');
+        out += name;
+        if (variant >= 0) {
+            out.push_back('#');
+            put_num(out, unsigned(variant));
+        }
+        out.push_back('(');
+    };
+    switch (o.kind) {
+        case INSERT:
+            call("Insert", int(o.variant % (vtype == 3 ? 3u : 5u)));
+            put_key(out, p.keys[o.k1]);
+            out += ",v";
+            put_num(out, o.seed);
+            break;
+        case GET:
+            call("Get", int(o.variant % 4u));
+            put_key(out, p.keys[o.k1]);
+            if (o.variant & 4u) {
+                out += ")=v";
+                put_num(out, o.seed);
+            } else {
+                out += ") read";
+            }
+            return;
+        case REMOVE:
+            call("Remove", int(o.variant % 3u));
+            put_key(out, p.keys[o.k1]);
+            break;
+        case REMOVE_INDEX:
+            call("RemoveIndex", -1);
+            put_num(out, o.n);
+            out += " mod Size+1";
+            break;
+        case RENAME:
+            call("Rename", int(o.variant % 2u));
+            put_key(out, p.keys[o.k1]);
+            out += "->";
+            put_key(out, p.keys[o.k2]);
+            break;
+        case MERGE:
+            out += (o.variant & 1u) ? "+=move " : "+=";
+            put_table(out, o.b);
+            return;
+        case RESERVE:
+        case RESIZE:
+        case EXPECT:
+            call(kind_name[o.kind], -1);
+            put_num(out, o.n);
+            break;
+        case COMPRESS:
+        case CLEAR:
+        case RESET: call(kind_name[o.kind], -1); break;
+        case SORT:
+            call("Sort", -1);
+            out += (o.variant & 1u) ? "asc" : "desc";
+            break;
+        default: {
+            static const char *const how[4] = {"=copy-assign(", "=move-assign(", "=copy-construct(", "=move-construct("};
+            out += how[(o.variant % 4u == 1 && o.a == o.b) ? 0 : o.variant % 4u]; // self-move is executed as self-copy
+            put_table(out, o.b);
+        }
+    }
+    out.push_back(')');
+}
+std::string describe(const Program &p, const Op &o, int vtype) {
+    std::string s;
+    describe_to(s, p, o, vtype);
+    return s;
 }
 
 // ---------------------------------------------------------------------------------------------------------------
@@ -440,7 +524,7 @@ struct Runner {
     // distribution counters (labels are emitted once per case)
     uint32_t kinds_seen{0};
     bool     f_tombstones{false}, f_removal{false}, f_rename{false}, f_rehash{false}, f_nontrivial{false}, f_skip_resize{false}, f_skip_sort{false},
-        f_truncated{false}, f_sort{false}, f_sort_tomb{false};
+        f_truncated{false}, f_resize_behind{false}, f_sort{false}, f_sort_tomb{false};
 
     Runner(const Program &pr, const Case &c, pbt::Ctx &cx)
         : p(pr), cs(c), ctx(cx), pool{Table(SizeT(pr.cap[0])), Table(SizeT(pr.cap[1])), Table(SizeT(pr.cap[2]))} {
@@ -596,7 +680,7 @@ struct Runner {
                 ++at;
             }
             if (at != mm.items.size() || raw != sz || t.End() != t.First() + sz || (sz != 0 && t.Last() != t.First() + (sz - 1)) ||
-                (sz == 0 && t.Last() != nullptr) || t.IsEmpty() != (sz == 0)) {
+                (sz == 0 && t.Last() != nullptr) || t.IsEmpty() != (sz == 0) || pool[size_t(ti)].begin() != t.begin() || pool[size_t(ti)].end() != t.end()) {
                 bad("iteration", ti, "begin/end/First/Last/End disagree with Size()");
             }
         }
@@ -872,21 +956,43 @@ struct Runner {
                     t.Reserve(SizeT(o.n));
                     mm.wipe();
                     break;
-                case RESIZE:
-                    if (o.n != 0 && o.n < t.Size() && (mm.may_tomb || t.Size() != mm.items.size())) {
-                        f_skip_resize = true;
+                case RESIZE: {
+                    const size_t live = mm.items.size();
+                    if (o.n != 0 && o.n < live && (mm.may_tomb || t.Size() != live)) {
+                        f_skip_resize = true; // which entries a truncating shrink keeps is only defined without tombstones
                         note          = " [skipped]";
                         break;
                     }
+                    // Resize(n) with n >= live count has room for every live entry, so nothing may be lost; with tombstones
+                    // in front, live entries can sit at slot numbers >= n: remember them (read through GetKey only).
+                    std::vector<std::string> behind;
+                    if (o.n != 0 && o.n >= live) {
+                        for (SizeT i = SizeT(o.n); i < t.Size(); ++i) {
+                            if (const QStr *k = t.GetKey(i)) {
+                                behind.push_back(str(*k));
+                            }
+                        }
+                    }
                     if (o.n == 0) {
                         mm.wipe();
-                    } else if (o.n < mm.items.size()) {
+                    } else if (o.n < live) {
                         mm.items.resize(o.n);
                         f_truncated = true;
                     }
                     t.Resize(SizeT(o.n));
                     mm.may_tomb = false;
+                    for (auto &k : behind) {
+                        if (!t.Has(k.data(), SizeT(k.size()))) {
+                            ctx.deviation("resize-drops-live-entry-behind-tombstone",
+                                          "step " + std::to_string(step) + " (" + describe(p, o, cs.vtype) + "), table T" + std::to_string(o.a) + ": " +
+                                              std::to_string(live) + " live entries fit into Resize(" + std::to_string(o.n) + ") but '" + pbt::enc_bytes(k) +
+                                              "', stored at a slot index >= " + std::to_string(o.n) + " behind removed entries, is gone; model keys " +
+                                              show_keys(model_keys(o.a)));
+                        }
+                    }
+                    f_resize_behind |= !behind.empty();
                     break;
+                }
                 case EXPECT: t.Expect(SizeT(o.n)); break;
                 case COMPRESS:
                     t.Compress();
@@ -953,6 +1059,7 @@ struct Runner {
         ctx.label("skipped:resize-shrink", f_skip_resize);
         ctx.label("skipped:sort-prefix", f_skip_sort);
         ctx.label("resize-truncated", f_truncated);
+        ctx.label("resize-with-live-entries-behind-n", f_resize_behind);
         ctx.label("sort-executed", f_sort);
         ctx.label("sort-with-tombstones", f_sort_tomb);
     }
@@ -979,24 +1086,39 @@ struct H {
                         });
     }
     static std::string to_text(const Case &c) {
-        pbt::KV     kv;
-        std::string hex;
-        char        b[4];
+        static const char hx[] = "0123456789abcdef";
+        std::string       t;
+        t.reserve(c.bytes.size() * 2 + 4096);
+        t += "bytes=";
         for (uint8_t x : c.bytes) {
-            snprintf(b, sizeof b, "%02x", x);
-            hex += b;
+            t.push_back(hx[x >> 4]);
+            t.push_back(hx[x & 15]);
         }
-        kv.put("bytes", hex);
-        kv.put("vtype", c.vtype);
-        // readable rendering (ignored by from_text)
-        Program     p = decode(c);
-        std::string ops = std::string("theme ") + theme_name[p.theme] + "; keys " + show_keys(p.keys) + "; initial sizes " + std::to_string(p.cap[0]) + "," +
-                          std::to_string(p.cap[1]) + "," + std::to_string(p.cap[2]) + ";";
+        t += "\nvtype=";
+        put_num(t, unsigned(c.vtype));
+        // readable rendering of the decoded program (ignored by from_text)
+        Program p = decode(c);
+        t += "\nops=theme ";
+        t += theme_name[p.theme];
+        t += "; keys [";
+        for (size_t i = 0; i < p.keys.size(); ++i) {
+            if (i != 0) {
+                t.push_back(',');
+            }
+            put_key(t, p.keys[i]);
+        }
+        t += "]; initial sizes ";
+        for (int i = 0; i < 3; ++i) {
+            put_num(t, p.cap[i]);
+            t.push_back(i < 2 ? ',' : ';');
+        }
         for (auto &o : p.ops) {
-            ops += " " + describe(p, o, c.vtype) + ";";
+            t.push_back(' ');
+            describe_to(t, p, o, c.vtype);
+            t.push_back(';');
         }
-        kv.put("ops", ops);
-        return kv.text();
+        t.push_back('\n');
+        return t;
     }
     static Case from_text(const std::string &t) {
         pbt::KV     kv = pbt::KV::parse(t);
